@@ -268,7 +268,7 @@ theorem parseHeaderL_inv {s r : Str} {h : HeaderL} (hp : parseHeaderL s = some (
   | some x =>
     obtain ⟨o, s1⟩ := x
     simp only [h1] at hp
-    cases h2 : many0 isNameChar s1 with
+    cases h2 : many1 isNameChar s1 with
     | none => simp [h2] at hp
     | some y =>
       obtain ⟨name, s2⟩ := y
@@ -279,7 +279,7 @@ theorem parseHeaderL_inv {s r : Str} {h : HeaderL} (hp : parseHeaderL s = some (
         obtain ⟨v, s3⟩ := z
         simp [h3] at hp
         obtain ⟨rfl, rfl⟩ := hp
-        have e2 := (many0_inv h2).1
+        have e2 := (many1_inv h2).1
         have e3 : s2 = valuePart v ++ s3 := by
           rcases opt_inv h3 with ⟨a, rfl, hb⟩ | ⟨rfl, rfl⟩
           · simpa [valuePart] using bracketValue_inv hb
@@ -304,7 +304,7 @@ theorem parseHttpSigRawL_inv {l r : Str} {raw : HttpSigL} (h : parseHttpSigRawL 
   have hv := httpVersionTable_consistent _ hm
   simp only at hv
   have e2 := tag_inv h2
-  obtain ⟨ts, hr, e3⟩ := sepList1_inv (R := fun x t => t = printHeaderL x)
+  obtain ⟨ts, hr, e3⟩ := sepList0_inv (R := fun x t => t = printHeaderL x)
     (fun s x r hp => ⟨printHeaderL x, parseHeaderL_inv hp, rfl⟩) h3
   have e4 := tag_inv h4
   have e5 : s4 = joinComma printHeaderL (ha.getD []) ++ s5 := by
